@@ -20,7 +20,8 @@ META = {
     'level': 'exploration',
     'level_text': (
         'Runtime oracle: a real session and an independent {line number: text} model receive the same history of '
-        'line entries, replacements, empty-line deletes, DELETE ranges, RENUM, MERGE, LOAD (ASCII and tokenised) and NEW. '
+        'line entries, replacements, empty-line deletes, DELETE ranges, RENUM, NEW and every way a program gets into memory from a file '
+        '(LOAD, LOAD ,R, RUN "f", CHAIN "f" of tokenised, protected and ASCII files; MERGE and CHAIN MERGE of ASCII files), with further edits on top. '
         'After every operation the unwrapped LIST must equal the model; at checkpoints GOTO landing, sub-range LIST and the '
         'PEEK walk of the in-memory links are compared as well; an invariant wrapper compares Program.line_numbers with a '
         'fresh token-structure scan of the bytecode after every store/delete/renum/load/merge/erase.'),
@@ -41,6 +42,8 @@ META = {
     'require_counters': {'any': ['replace_seen', 'replace_longer_seen', 'replace_shorter_seen', 'delete_line_seen',
                                  'delete_range_seen', 'delete_range_empty_seen', 'renum_accepted', 'renum_rejected',
                                  'merge_seen', 'load_ascii_seen', 'load_tokenised_seen', 'new_seen', 'reinsert_deleted_seen',
+                                 'load_protected_seen', 'run_protected_seen', 'chain_protected_seen', 'run_tokenised_seen', 'chain_tokenised_seen',
+                                 'run_ascii_seen', 'chain_ascii_seen', 'chain_merge_ascii_seen', 'load_r_protected_seen', 'edits_on_loaded_program',
                                  'peek_walks', 'goto_landings', 'inv_checks']},
     'timeout': {'quick': 900, 'thorough': 7200},
 }
@@ -124,6 +127,8 @@ class Driver(object):
         kind = op[0]
         m = self.model
         res = self.res
+        if 'loaded' in self.flags and kind in ('store', 'del', 'delete', 'renum'):
+            res.count('edits_on_loaded_program')
         if kind == 'store':
             _, n, text = op
             if n in m.lines:
@@ -241,7 +246,7 @@ class Driver(object):
                     self.lead.add(0)
         elif kind == 'save':
             _, slot, fmt = op
-            out = self.ex(b'SAVE "S%d"%s' % (slot, b',A' if fmt == 'A' else b''))
+            out = self.ex(b'SAVE "S%d"%s' % (slot, {'A': b',A', 'P': b',P', 'B': b''}[fmt]))
             if out:
                 self.fail('save:unexpected-output', 'SAVE gave %r' % out)
             lead = set(self.lead)
@@ -252,21 +257,39 @@ class Driver(object):
                     lead.add(0)
             self.saved[slot] = (fmt, m.copy(), lead)
             res.count('save_%s_seen' % fmt)
-        elif kind in ('load_saved', 'merge_saved'):
+        elif kind in ('load_saved', 'merge_saved', 'run_saved', 'chain_saved', 'load_r_saved', 'chain_merge_saved'):
+            # every way a program gets into memory from a file saved by this session (B, P or A; protection is not honoured
+            # in these sessions, so a P file can be listed): LOAD, LOAD ,R, RUN "f", CHAIN "f" replace the program,
+            # MERGE and CHAIN MERGE (ASCII only) merge into it; the running forms must print every line's tag in order
             _, slot = op
             fmt, snap, slead = self.saved[slot]
-            cmd = b'LOAD' if kind == 'load_saved' else b'MERGE'
-            out = self.ex(cmd + b' "S%d"' % slot)
-            if out:
-                self.fail('%s:unexpected-output' % kind, '%r of a file saved by this session gave %r' % (cmd, out))
+            name = b'"S%d"' % slot
+            cmd = {'load_saved': b'LOAD ' + name, 'merge_saved': b'MERGE ' + name, 'run_saved': b'RUN ' + name,
+                   'chain_saved': b'CHAIN ' + name, 'load_r_saved': b'LOAD ' + name + b',R', 'chain_merge_saved': b'CHAIN MERGE ' + name}[kind]
+            merging = kind in ('merge_saved', 'chain_merge_saved')
+            running = kind not in ('load_saved', 'merge_saved')
+            if merging:
+                new_lines = dict(m.lines)
+                new_lines.update(snap.lines)
+            else:
+                new_lines = dict(snap.lines)
+            out = self.ex(cmd, 4 * len(new_lines) + 200)
+            exp = b''.join(self.printed[new_lines[k]] for k in sorted(new_lines)) if running else b''
+            if out != exp:
+                self.fail('%s:%s:%s' % (kind.replace('_saved', ''), {'A': 'ascii', 'B': 'tokenised', 'P': 'protected'}[fmt],
+                                        'unexpected-output' if not running else 'run-output-differs'),
+                          '%r of a file saved by this session gave %r, expected %r' % (cmd, out[-150:], exp[-150:]))
+            res.count('%s_%s_seen' % (kind.replace('_saved', ''), {'A': 'ascii', 'B': 'tokenised', 'P': 'protected'}[fmt]))
             if kind == 'load_saved':
-                res.count('load_tokenised_seen' if fmt == 'B' else 'load_ascii_seen')
-                m.lines = dict(snap.lines)
+                res.count('load_tokenised_seen' if fmt in 'BP' else 'load_ascii_seen')
+            if not merging:
+                m.lines = new_lines
                 self.lead = set(slead)
             else:
                 res.count('merge_seen')
-                m.merge(sorted(snap.lines.items()))
+                m.lines = new_lines
                 self.lead = (self.lead - set(snap.lines)) | slead
+            self.flags.add('loaded')
         elif kind == 'new':
             out = self.ex(b'NEW')
             if out:
@@ -455,12 +478,14 @@ def gen_op(rng, d, universe):
         kind = 'merge' if rng.random() < 0.7 else 'load_ascii'
         return [kind, 'M%d.TXT' % rng.randrange(3), pairs, rng.random() < 0.7]
     if r < 0.90:
-        return ['save', rng.randrange(3), rng.choice('AB')]
+        return ['save', rng.randrange(4), rng.choice('ABP')]
     if r < 0.97 and d.saved:
         slot = rng.choice(sorted(d.saved))
-        # MERGE needs an ASCII file
-        kind = rng.choice(['load_saved', 'load_saved', 'merge_saved']) if d.saved[slot][0] == 'A' else 'load_saved'
-        return [kind, slot]
+        # MERGE / CHAIN MERGE need an ASCII file
+        kinds = ['load_saved', 'load_saved', 'run_saved', 'chain_saved', 'load_r_saved']
+        if d.saved[slot][0] == 'A':
+            kinds += ['merge_saved', 'merge_saved', 'chain_merge_saved']
+        return [rng.choice(kinds), slot]
     if r < 0.985:
         return ['new']
     return ['store', num(0.5), d.make_text(rng)]
@@ -514,6 +539,17 @@ DIRECTED = [
     # line number 0 through RENUM (directed reproducer of LEAD_KEY) and back to 0
     [['store', 0, b'PRINT "Z0"'], ['store', 5, b'PRINT "Z5"'], ['cp'], ['renum', None, None, None], ['cp'], ['save', 0, 'A'], ['save', 1, 'B'],
      ['load_saved', 0], ['cp'], ['load_saved', 1], ['cp'], ['store', 0, b'PRINT "Y0"'], ['renum', 100, 10, None], ['cp']],
+    # every way into memory x every format, each followed by edits on top of the loaded program
+    [['store', 10, b'PRINT "A10"'], ['store', 20, b'PRINT "A20"'], ['store', 30, b'PRINT "A30"'], ['save', 0, 'B'], ['save', 1, 'P'], ['save', 2, 'A'],
+     ['new'], ['load_saved', 1], ['cp'], ['store', 15, b'PRINT "B15"'], ['store', 5, b'PRINT "B5"'], ['store', 40, b'PRINT "B40"'], ['cp'],
+     ['del', 20], ['cp'], ['renum', None, None, None], ['cp'],
+     ['run_saved', 1], ['cp'], ['store', 25, b'PRINT "C25"'], ['cp'], ['chain_saved', 1], ['cp'], ['store', 1, b'PRINT "C1"'], ['cp'],
+     ['load_r_saved', 1], ['cp'], ['delete', 'a-b', 10, 20], ['store', 35, b'PRINT "D35"'], ['cp'],
+     ['run_saved', 0], ['cp'], ['store', 12, b'PRINT "E12"'], ['cp'], ['chain_saved', 0], ['store', 31, b'PRINT "E31"'], ['cp'],
+     ['load_r_saved', 2], ['store', 11, b'PRINT "F11"'], ['cp'], ['run_saved', 2], ['store', 21, b'PRINT "F21"'], ['cp'],
+     ['chain_saved', 2], ['store', 22, b'PRINT "F22"'], ['cp'], ['new'], ['store', 20, b'PRINT "G20"'], ['store', 50, b'PRINT "G50"'],
+     ['chain_merge_saved', 2], ['cp'], ['store', 45, b'PRINT "H45"'], ['merge_saved', 2], ['cp'], ['save', 3, 'P'], ['load_saved', 3], ['cp'],
+     ['store', 46, b'PRINT "I46"'], ['cp']],
     # MERGE / LOAD / SAVE / NEW
     [['store', 10, b'PRINT "A10"'], ['store', 20, b'PRINT "A20"'], ['save', 0, 'B'], ['save', 1, 'A'],
      ['merge', 'M0.TXT', [[30, b'PRINT "M30"'], [20, b'PRINT "M20":REM replaced by merge'], [5, b"' M5"]], True], ['cp'],
